@@ -204,6 +204,14 @@ def run(chk):
     # ---- (d) magic numbers
     fn = fx.fn('crates/erg_common/serialize.rs', 'get_ver_from_magic_num')
     ms = [n for n in T.walk(fn['body']) if n.get('k') == 'Match']
+    # the table may live in a fallible twin (`try_get_ver_from_magic_num(m) -> Option<PythonVersion>`) that this function unwraps
+    if len(ms) == 1 and T.peel(ms[0]['x']).get('k') == 'Call' and 'ver_from_magic' in (T.callee(T.peel(ms[0]['x'])) or ''):
+        inner = T.last_seg(T.callee(T.peel(ms[0]['x'])))
+        args = T.peel(ms[0]['x'])['a']
+        pn = next((p_['n'] for p_ in (fn.get('params') or []) if p_.get('k') == 'Bind'), None)
+        if len(args) == 1 and T.peel(args[0]).get('k') == 'Local' and T.peel(args[0])['n'] == pn:
+            fn = fx.fn('crates/erg_common/serialize.rs', inner)
+            ms = [n for n in T.walk(fn['body']) if n.get('k') == 'Match']
     if chk.need(len(ms) == 1, 'get_ver_from_magic_num: expected one match'):
         ranges = []
         for arm in ms[0]['arms']:
